@@ -556,6 +556,25 @@ def gen_note(repo):
     out.append("end Mingus.Gen.Note")
     return "\n".join(out) + "\n"
 
+# ---------------------------------------------------------------- containers.note_container
+def gen_notecontainer(repo):
+    t = parse(repo, "mingus/containers/note_container.py")
+    c = cls(t, "NoteContainer")
+    add = method(c, "add_note")
+    consts = []
+    for n in ast.walk(add):
+        if is_call(n, "Note") and len(n.args) >= 2:
+            consts.append(ast.unparse(n.args[1]))
+    rem = method(c, "remove_note")
+    rem_default = lit(rem.args.defaults[0])
+    dup = [ast.unparse(n.test) for n in ast.walk(add) if isinstance(n, ast.If) and "not in self.notes" in ast.unparse(n.test)]
+    out = ["namespace Mingus.Gen.NoteContainer"]
+    out.append("def addNoteOctaves : List (List Char) := " + llist(lstr(x) for x in consts))
+    out.append("def removeDefaultOctave : Int := " + lint(rem_default))
+    out.append("def duplicateTest : List (List Char) := " + llist(lstr(x) for x in dup))
+    out.append("end Mingus.Gen.NoteContainer")
+    return "\n".join(out) + "\n"
+
 GENERATORS = {
     "Notes": gen_notes,
     "Keys": gen_keys,
@@ -565,6 +584,7 @@ GENERATORS = {
     "Progressions": gen_progressions,
     "Value": gen_value,
     "Note": gen_note,
+    "NoteContainer": gen_notecontainer,
 }
 
 def main():
